@@ -211,6 +211,7 @@ func c08(c *Ctx) (*report.Result, error) {
 	res := newResult("C08")
 	res.RuleDoc["O8.1"] = "cleanup removes only its own entry: every call made by a stream incarnation's cleanup (deferred calls and post-run statements of the four Run functions and of ensureStream's goroutine) that reaches a delete on a per-shard registry reaches only deletes guarded by a comparison of the stored entry with the incarnation's own identity, inside the critical section of the lookup"
 	res.RuleDoc["O8.6"] = "registration bookkeeping cannot wedge itself: inside a critical section of any mutex of the shard manager, the intra-proxy manager or the stream structs no call acquires the same (non-reentrant) mutex again, and these mutexes nest in one order"
+	res.RuleDoc["O8.7"] = "no worker outlives its latch: every back-off loop (a cycle through time.Sleep) of package proxy re-checks a shutdown latch / context, or a deadline, on every way round - a retry loop that only looks at the latch in one branch keeps its goroutine alive for ever once the thing it waits for is gone"
 	res.RuleDoc["O8.5"] = "identity tokens are fresh per registration: the time RegisterShard hands back is time.Now() of that very call and is what the stored entry carries, on every path (two incarnations can never share a token)"
 	res.RuleDoc["O8.2"] = "sends on a closable channel are recover-guarded: every send on a chan RoutedMessage (the only registered channel type its owner closes) lies in a function with a deferred recover()"
 	res.RuleDoc["O8.3"] = "successor evicts before it registers: the receiver terminates its predecessor before registering its own channel/cancel/receiver; the sender registers its delivery channel before announcing ownership"
@@ -382,6 +383,7 @@ func c08(c *Ctx) (*report.Result, error) {
 			res.Undec("O8.6", "critical sections of package proxy", "", fmt.Sprintf("%d sections found", n))
 		}
 	}
+	checkBackoffLoops(c, res, "O8.7")
 	return res, nil
 }
 
@@ -663,4 +665,70 @@ func checkFreshTokens(c *Ctx, res *report.Result) {
 		}
 		res.Check(ok, rule, "RegisterShard returns the stamp of the entry it stored", fnPos(c.Prog, g), "ok", "the caller's token is not the stored entry's time stamp")
 	}
+}
+
+// checkBackoffLoops: for each time.Sleep call that lies on a CFG cycle, every cyclic path from the sleep back to
+// itself passes a latch / context / deadline test.
+func checkBackoffLoops(c *Ctx, res *report.Result, rule string) {
+	sp, err := c.Prog.SSAPkg("proxy")
+	if err != nil {
+		res.Undec(rule, "proxy package", "", err.Error())
+		return
+	}
+	isCheck := func(x ssa.Instruction) bool {
+		switch y := x.(type) {
+		case *ssa.Select:
+			for _, st := range y.States {
+				if st.Dir == types.RecvOnly {
+					return true
+				}
+			}
+		case *ssa.UnOp:
+			if y.Op == token.ARROW {
+				return true // a blocking receive (timer, done channel)
+			}
+		case ssa.CallInstruction:
+			cc := y.Common()
+			if cc.IsInvoke() {
+				switch cc.Method.Name() {
+				case "IsShutdown", "Err", "Done":
+					return true
+				}
+				return false
+			}
+			if cal := flow.StaticCallee(cc); cal != nil {
+				switch cal.String() {
+				case "(time.Time).After", "(time.Time).Before", "time.Until", "time.Since":
+					return true
+				}
+				if cal.Name() == "IsShutdown" {
+					return true
+				}
+			}
+		}
+		return false
+	}
+	n := 0
+	for _, f := range c.Prog.RepoFuncs() {
+		if f.Package() != sp || !isShippedFunc(f) {
+			continue
+		}
+		for _, call := range flow.Calls(f) {
+			if !flow.IsCallTo(call.Common(), "time", "", "Sleep") {
+				continue
+			}
+			self := func(x ssa.Instruction) bool { return x == ssa.Instruction(call) }
+			// on a cycle at all?
+			if r0 := flow.FindPath(flow.After(call), self, func(ssa.Instruction) bool { return false }, nil); !r0.Found {
+				continue
+			}
+			n++
+			r := flow.FindPath(flow.After(call), self, isCheck, nil)
+			res.Check(!r.Found, rule, shortFn(f)+": back-off loop re-checks its latch", instrPos(c.Prog, call), "every way round the loop passes a latch, context or deadline test", "the loop can go round (path "+flow.BlockPath(r.Via)+") without looking at any shutdown latch, context or deadline: once the awaited channel/owner is gone for good the goroutine sleeps and retries for ever, also after its stream has been shut down")
+		}
+	}
+	if n < 4 {
+		res.Undec(rule, "back-off loops of package proxy", "", fmt.Sprintf("%d found, 5 confirmed by hand", n))
+	}
+	res.Analysed["backoff_loops"] = n
 }
